@@ -12,7 +12,10 @@ exec 9>/var/tmp/vs.lock; flock 9
 if [ ! -f $S/.built ] || [ "$(cat $S/.built)" != "$head" ]; then
   rm -rf $S && mkdir -p $S && (cd /repo && git archive HEAD | tar -x -C $S) && cd $S || exit 2
   (./autogen.sh >/dev/null 2>&1 || true); ./configure >/dev/null 2>&1 && make -j$J >/dev/null 2>&1 || { echo "baseline build failed"; exit 2; }
-  make check -j$J > $S/check.base.log 2>&1
+  for try in 1 2 3; do   # a loaded machine makes test-gather-topology.sh flaky: a run with failures is repeated
+    make check -k -j$J > $S/check.base.log 2>&1
+    [ "$(grep -c '^FAIL\|^ERROR' $S/check.base.log)" = 0 ] && break
+  done
   echo "baseline PASS=$(grep -c '^PASS' $S/check.base.log) FAIL=$(grep -c '^FAIL' $S/check.base.log)" > $S/.baseline
   echo $head > $S/.built
 fi
@@ -36,8 +39,12 @@ patch -p1 -s < $d/patch.diff
 make -j$J > $S/_build.log 2>&1; r_build=$?
 pass=0; fail=0; r_mut=-1
 if [ $r_build = 0 ]; then
-  make check -j$J > $S/check.mut.log 2>&1
-  pass=$(grep -c '^PASS' $S/check.mut.log); fail=$(grep -c '^FAIL\|^ERROR' $S/check.mut.log)
+  for try in 1 2; do
+    make check -k -j$J > $S/check.mut.log 2>&1
+    pass=$(grep -c '^PASS' $S/check.mut.log); fail=$(grep -c '^FAIL\|^ERROR' $S/check.mut.log)
+    [ "$fail" = 0 ] && break
+  done
+  [ "$fail" != 0 ] && grep '^FAIL\|^ERROR' $S/check.mut.log | head -5
   rundemo; r_mut=$?
   cp $S/_demo/out.log $d/demo.mut.out 2>/dev/null
 fi
